@@ -1,6 +1,6 @@
 (* The C03 theorems over whole inputs: every token of lex_all is the maximal munch of the
-   specification; lex_all reports no error exactly on lexically valid inputs (outside the one known
-   deviation); the refutations. *)
+   specification; lex_all reports no error exactly on lexically valid inputs; the refutation under
+   the strict October 2021 SourceCharacter set. *)
 From ApolloVerif Require Import Base.Chars Lex.Item Lex.Fun Lex.Spec Lex.LexProofs Lex.Bridge
   Lex.LexComplete Lex.LexSound.
 From Coq Require Import ZifyBool ZifyN.
@@ -8,10 +8,6 @@ From Coq Require Import ZifyBool ZifyN.
 Definition item_is_tok (i : item) : bool := match i with ITok _ _ _ => true | IErr _ _ _ => false end.
 (* the lexer reports no error *)
 Definition no_lex_error (s : str) : bool := forallb item_is_tok (lex_all s).
-(* the known deviation occurs: some token's text starts  quote, line terminator *)
-Definition item_leading_lt (i : item) : bool :=
-  match i with ITok _ d _ => lex_leading_lt d | IErr _ _ _ => false end.
-Definition lex_has_leading_lt (s : str) : bool := existsb item_leading_lt (lex_all s).
 
 (* ---------- first characters of lexemes ---------- *)
 Definition FirstOf (k : tkind) (a : N) : Prop :=
@@ -48,30 +44,12 @@ Qed.
 Lemma lexeme_nonempty k d : Lexeme SC k d -> d <> [].
 Proof. intros L. destruct (lexeme_first _ _ L) as [a [t [-> _]]]. discriminate. Qed.
 
-Lemma leading_lt_first a t : a <> 34 -> lex_leading_lt (a :: t) = false.
-Proof. intros H. destruct t as [|c t']; [reflexivity|]. cbn [lex_leading_lt]. replace (a =? 34) with false by lia. reflexivity. Qed.
-
-Lemma lexeme_no_leading_lt k d : Lexeme SC k d -> lex_leading_lt d = false.
-Proof.
-  intros L. destruct (lexeme_first _ _ L) as [a [t [-> Hf]]].
-  destruct (N.eqb_spec a 34) as [->|Hne]; [|now apply leading_lt_first].
-  assert (k = TkStringValue).
-  { destruct k; cbn [FirstOf] in Hf; try reflexivity; unfold IgnoredChar, UnicodeBOM, WhiteSpaceChar,
-      LineTerminatorChar, NameStart, Digit in Hf; try lia; try tauto. }
-  subst k. inversion L as [| | | | | | | | | | | | | | | | | | | |d0 Hq|d0 Hb]; subst.
-  - inversion Hq as [|chunks Hne Hch]; subst; [reflexivity|].
-    destruct chunks as [|ch chs]; [congruence|]. inversion Hch as [|? ? Hc _]; subst.
-    destruct (chunk_first SC _ Hc) as [c [t' [-> [_ Hl]]]].
-    cbn [concat app lex_leading_lt]. rewrite Hl. apply andb_false_r.
-  - inversion Hb; subst. reflexivity.
-Qed.
-
 (* ---------- every token is the maximal munch ---------- *)
 Lemma lex_from_munch (s : str) : forall idx0 pre k d idx post, Forall SC s ->
-  lex_from idx0 s = pre ++ ITok k d idx :: post -> k <> TkEof -> lex_leading_lt d = false ->
+  lex_from idx0 s = pre ++ ITok k d idx :: post -> k <> TkEof ->
   Munch SC k d (concat (map item_data post)).
 Proof.
-  induction s as [|c r res d0 rest0 E IH] using lex_ind; intros idx0 pre k d idx post Hsc Hl Hk Hlt.
+  induction s as [|c r res d0 rest0 E IH] using lex_ind; intros idx0 pre k d idx post Hsc Hl Hk.
   - rewrite lex_from_nil in Hl. destruct pre as [|p pre]; cbn [app] in Hl.
     + injection Hl as <- _ _ _. congruence.
     + injection Hl as _ Hl. destruct pre; discriminate.
@@ -80,7 +58,7 @@ Proof.
     destruct pre as [|p pre]; cbn [app] in Hl.
     + injection Hl as Hm Hp. subst post. rewrite lex_from_concat.
       destruct res as [k0|]; cbn [lex_mk_item] in Hm; [|discriminate]. injection Hm as -> -> _.
-      destruct (lex_one_sound SC _ _ _ _ _ E Hsc Hlt) as [HL HR].
+      destruct (lex_one_sound SC _ _ _ _ _ E Hsc) as [HL HR].
       split; [exact HL|]. split; [exact HR|].
       intros k' d' rest' Heq HL'.
       destruct (lexeme_consumed SC _ _ rest' HL') as [o [Ho Hext]].
@@ -91,7 +69,7 @@ Proof.
 Qed.
 
 Theorem tokens_are_munch s pre k d idx post : Forall SC s ->
-  lex_all s = pre ++ ITok k d idx :: post -> k <> TkEof -> lex_leading_lt d = false ->
+  lex_all s = pre ++ ITok k d idx :: post -> k <> TkEof ->
   Munch SC k d (concat (map item_data post)).
 Proof. intros Hsc Hl. rewrite lex_all_from in Hl. eapply lex_from_munch; eauto. Qed.
 
@@ -134,18 +112,18 @@ Proof.
 Qed.
 
 Lemma valid_no_error : forall n s idx, (length s <= n)%nat -> Forall SC s -> LexicallyValid SC s ->
-  forallb item_is_tok (lex_from idx s) = true /\ existsb item_leading_lt (lex_from idx s) = false.
+  forallb item_is_tok (lex_from idx s) = true.
 Proof.
   induction n as [|n IH]; intros s idx Hl Hsc HV.
-  - destruct s; [split; reflexivity|cbn in Hl; lia].
-  - apply LV_inv in HV as [->|[k [d [rest [-> [HL [HR HV]]]]]]]; [split; reflexivity|].
+  - destruct s; [reflexivity|cbn in Hl; lia].
+  - apply LV_inv in HV as [->|[k [d [rest [-> [HL [HR HV]]]]]]]; [reflexivity|].
     pose proof (lexeme_nonempty _ _ HL) as Hne.
     pose proof Hsc as Hsc'. apply Forall_app in Hsc' as [Hscd Hscr].
     destruct (tkind_eqb k TkWhitespace) eqn:Hk.
     + apply tkind_eqb_eq in Hk. subst k. destruct (lexeme_ws_inv _ HL) as [_ Hd].
       destruct (ignored_head d rest Hne Hd) as [x [rest' [Hh [Hx [Hxi _]]]]].
       destruct (d ++ rest) as [|c r] eqn:Hs; [discriminate|]. cbn [lex_head] in Hh. injection Hh as Hh.
-      rewrite (lex_from_cons _ _ _ _ _ _ Hh). cbn [forallb existsb lex_mk_item item_is_tok item_leading_lt].
+      rewrite (lex_from_cons _ _ _ _ _ _ Hh). cbn [forallb lex_mk_item item_is_tok].
       assert (HV' : LexicallyValid SC rest').
       { apply (LV_strip (length x) x); auto. now rewrite Hx. }
       assert (Hlen : (length rest' <= n)%nat).
@@ -153,106 +131,52 @@ Proof.
         subst rest. rewrite app_length in Hs. destruct d; [congruence|cbn [length] in Hs]. lia. }
       assert (Hsc2 : Forall SC rest').
       { subst rest. now apply Forall_app in Hscr. }
-      destruct (IH rest' (idx + blen (d ++ x)) Hlen Hsc2 HV') as [H1 H2]. rewrite H1, H2.
-      split; [reflexivity|]. rewrite orb_false_r.
-      apply (lexeme_no_leading_lt TkWhitespace). apply Lx_ignored.
-      * destruct d; [congruence|discriminate].
-      * apply Forall_app. auto.
+      rewrite (IH rest' (idx + blen (d ++ x)) Hlen Hsc2 HV'). reflexivity.
     + assert (Hkn : k <> TkWhitespace) by (intros ->; cbn in Hk; discriminate).
       pose proof (lexeme_exact SC _ _ _ HL HR Hkn Hscr) as Hh.
       destruct (d ++ rest) as [|c r] eqn:Hs; [discriminate|]. cbn [lex_head] in Hh. injection Hh as Hh.
-      rewrite (lex_from_cons _ _ _ _ _ _ Hh). cbn [forallb existsb lex_mk_item item_is_tok item_leading_lt].
+      rewrite (lex_from_cons _ _ _ _ _ _ Hh). cbn [forallb lex_mk_item item_is_tok].
       assert (Hlen : (length rest <= n)%nat).
       { apply (f_equal (@length N)) in Hs. rewrite app_length in Hs. cbn [length] in Hs, Hl.
         destruct d; [congruence|cbn [length] in Hs]. lia. }
-      destruct (IH rest (idx + blen d) Hlen Hscr HV) as [H1 H2]. rewrite H1, H2.
-      split; [reflexivity|]. rewrite orb_false_r. eapply lexeme_no_leading_lt; eauto.
+      rewrite (IH rest (idx + blen d) Hlen Hscr HV). reflexivity.
 Qed.
 
 Lemma no_error_valid (s : str) : forall idx, Forall SC s ->
-  forallb item_is_tok (lex_from idx s) = true -> existsb item_leading_lt (lex_from idx s) = false ->
-  LexicallyValid SC s.
+  forallb item_is_tok (lex_from idx s) = true -> LexicallyValid SC s.
 Proof.
-  induction s as [|c r res d rest E IH] using lex_ind; intros idx Hsc Hne Hnl.
+  induction s as [|c r res d rest E IH] using lex_ind; intros idx Hsc Hne.
   - constructor.
-  - rewrite (lex_from_cons _ _ _ _ _ _ E) in Hne, Hnl. cbn [forallb existsb] in Hne, Hnl.
-    apply andb_true_iff in Hne as [Ht Hne]. apply orb_false_iff in Hnl as [Hl Hnl].
-    destruct res as [k|]; cbn [lex_mk_item item_is_tok item_leading_lt] in Ht, Hl; [|discriminate].
+  - rewrite (lex_from_cons _ _ _ _ _ _ E) in Hne. cbn [forallb] in Hne.
+    apply andb_true_iff in Hne as [Ht Hne].
+    destruct res as [k|]; cbn [lex_mk_item item_is_tok] in Ht; [|discriminate].
     destruct (lex_one_app _ _ _ _ _ E) as [Happ _].
-    destruct (lex_one_sound SC _ _ _ _ _ E Hsc Hl) as [HL HR].
+    destruct (lex_one_sound SC _ _ _ _ _ E Hsc) as [HL HR].
     rewrite <- Happ. apply (LV_cons SC k); auto.
     eapply IH; eauto. rewrite <- Happ in Hsc. now apply Forall_app in Hsc.
 Qed.
 
-(* the sharp characterisation *)
-Theorem valid_iff s : Forall SC s ->
-  (LexicallyValid SC s <-> no_lex_error s = true /\ lex_has_leading_lt s = false).
+Theorem no_error_iff s : Forall SC s -> (no_lex_error s = true <-> LexicallyValid SC s).
 Proof.
-  intros Hsc. unfold no_lex_error, lex_has_leading_lt. rewrite lex_all_from. split.
+  intros Hsc. unfold no_lex_error. rewrite lex_all_from. split.
+  - intros H. eapply no_error_valid; eauto.
   - intros HV. eapply valid_no_error; eauto.
-  - intros [H1 H2]. eapply no_error_valid; eauto.
 Qed.
-
-Theorem no_error_iff s : Forall SC s -> lex_has_leading_lt s = false ->
-  (no_lex_error s = true <-> LexicallyValid SC s).
-Proof. intros Hsc Hk. rewrite (valid_iff s Hsc). tauto. Qed.
 
 End Main.
 
-(* ---------- refutations of the unrestricted statements ---------- *)
-(* quote LF quote : one error-free StringValue token, not a lexeme of the grammar *)
-Definition wit_leading_lt : str := [34; 10; 34].
-
-Lemma wit_leading_lt_invalid SC : ~ LexicallyValid SC wit_leading_lt.
-Proof.
-  intros HV. apply LV_inv in HV as [HV|[k [d [rest [Heq [HL [HR HV]]]]]]]; [discriminate|].
-  destruct (lexeme_first _ _ _ HL) as [a [t [-> Hf]]]. unfold wit_leading_lt in Heq.
-  cbn [app] in Heq. injection Heq as <- Heq.
-  assert (k = TkStringValue).
-  { destruct k; cbn [FirstOf] in Hf; try reflexivity; unfold IgnoredChar, UnicodeBOM, WhiteSpaceChar,
-      LineTerminatorChar, NameStart, Digit in Hf; try lia; try tauto. }
-  subst k. inversion HL as [| | | | | | | | | | | | | | | | | | | |d0 Hq|d0 Hb]; subst.
-  - inversion Hq as [|chunks Hne Hch]; subst.
-    + cbn [app] in Heq. discriminate.
-    + destruct chunks as [|ch chs]; [congruence|]. inversion Hch as [|? ? Hc _]; subst.
-      destruct (chunk_first SC _ Hc) as [c [t' [-> [_ Hl]]]].
-      cbn [concat app] in Heq. injection Heq as <- _. discriminate.
-  - inversion Hb; subst. cbn [app] in Heq. discriminate.
-Qed.
-
-Theorem no_error_iff_refuted :
-  exists s, Forall SC_oct2021 s /\ Forall SC_scalar s /\ no_lex_error s = true /\
-            ~ LexicallyValid SC_oct2021 s /\ ~ LexicallyValid SC_scalar s.
-Proof.
-  exists wit_leading_lt. split; [|split; [|split; [|split]]].
-  - repeat constructor; unfold SC_oct2021; lia.
-  - repeat constructor; unfold SC_scalar, scalar; lia.
-  - vm_compute. reflexivity.
-  - apply wit_leading_lt_invalid.
-  - apply wit_leading_lt_invalid.
-Qed.
-
-Theorem tokens_are_munch_refuted :
-  exists s pre k d idx post, Forall SC_oct2021 s /\ lex_all s = pre ++ ITok k d idx :: post /\ k <> TkEof /\
-    ~ Munch SC_scalar k d (concat (map item_data post)).
-Proof.
-  exists wit_leading_lt, [], TkStringValue, wit_leading_lt, 0, [ITok TkEof [] 3].
-  split; [repeat constructor; unfold SC_oct2021; lia|]. split; [vm_compute; reflexivity|].
-  split; [discriminate|]. intros [HL _].
-  apply (wit_leading_lt_invalid SC_scalar).
-  rewrite <- (app_nil_r wit_leading_lt). apply (LV_cons _ TkStringValue); [exact HL| |constructor].
-  cbn [Restrict]. unfold wit_leading_lt. intros [= ].
-Qed.
+(* ---------- a regression example: quote LF quote (accepted before the repair 4dbec7a) ---------- *)
+Example leading_line_terminator_is_error : lex_all [34; 10; 34] = [IErr ELex [34; 10; 34] 0; ITok TkEof [] 3].
+Proof. vm_compute. reflexivity. Qed.
 
 (* D4: under the strict October 2021 SourceCharacter, hash U+0001 lexes without error but is not valid *)
 Definition wit_oct2021 : str := [35; 1].
 
 Theorem no_error_iff_oct2021_refuted :
-  exists s, Forall scalar s /\ no_lex_error s = true /\ lex_has_leading_lt s = false /\
-            ~ LexicallyValid SC_oct2021 s.
+  exists s, Forall scalar s /\ no_lex_error s = true /\ ~ LexicallyValid SC_oct2021 s.
 Proof.
   exists wit_oct2021. split; [repeat constructor; unfold scalar; lia|].
-  split; [vm_compute; reflexivity|]. split; [vm_compute; reflexivity|].
+  split; [vm_compute; reflexivity|].
   intros HV. apply LV_inv in HV as [HV|[k [d [rest [Heq [HL [HR HV]]]]]]]; [discriminate|].
   destruct (lexeme_first _ _ _ HL) as [a [t [-> Hf]]]. unfold wit_oct2021 in Heq.
   cbn [app] in Heq. injection Heq as <- Heq.
@@ -268,4 +192,17 @@ Proof.
       LineTerminatorChar, NameStart, Digit in Hf'; try lia; try tauto.
   - cbn [app] in Heq. injection Heq as <- _. inversion Hb as [|? ? [Hsc _] _]; subst.
     unfold SC_oct2021 in Hsc. lia.
+Qed.
+
+(* deciding the hypotheses on concrete inputs *)
+Definition sc_oct2021_b (c : N) : bool :=
+  (c =? 9) || (c =? 10) || (c =? 13) || ((32 <=? c) && (c <=? 65535)).
+Lemma sc_oct2021_forall s : forallb sc_oct2021_b s = true -> Forall SC_oct2021 s.
+Proof.
+  intros H. apply Forall_forall. intros c Hc. rewrite forallb_forall in H. specialize (H c Hc).
+  unfold sc_oct2021_b in H. unfold SC_oct2021. lia.
+Qed.
+Lemma scalar_forall s : forallb scalarb s = true -> Forall scalar s.
+Proof.
+  intros H. apply Forall_forall. intros c Hc. rewrite forallb_forall in H. apply scalarb_spec. auto.
 Qed.
